@@ -79,6 +79,12 @@ def cases(tier):
                     yield ('Dsym', role, base, depth, form)
         for how in ('literal', 'literal-with-option', 'string-symbol', 'string-symbol-with-option', 'string-symbol-lead'):
             yield ('Dabs', role, how)
+    # a path symbol smuggled into a path-to-create through a STRING symbol (every symbol a path component is built from must be a string)
+    for role in DEST_ROLES:
+        for base in ROOTS + (None,):
+            for pos in ('only', 'first', 'second', 'third', 'nested-second'):
+                for usage in ('lead', 'suffix'):
+                    yield ('Dstr', role, base, pos, usage)
     # the same symbol in a reading role and in a creating role (restrictions belong to the reference, not to the name)
     for shape in SAME_SHAPES:
         for base in ROOTS + (None,):
@@ -131,6 +137,8 @@ def run(case) -> Result:
         return _dabs(res, case, w, seam)
     if k == 'Dsame':
         return _dsame(res, case, w, seam)
+    if k == 'Dstr':
+        return _dstr(res, case, w, seam)
     if k == 'Rhere':
         return _rhere(res, case, w, seam)
     if k == 'RhereSuite':
@@ -432,6 +440,33 @@ def _dabs(res, case, w, seam):
             res.kf[hit] += 1
         else:
             res.violation(case, errs, {'file': text})
+    return res
+
+
+def _dstr(res, case, w, seam):
+    _, role, base, pos, usage = case
+    pre = ['def path PB = %sb0' % ((OPT[base] + ' ') if base else ''), "def string NIL = ''", "def string SEP = '/'"]
+    body = {'only': '@[PB]@', 'first': '@[PB]@@[NIL]@', 'second': '@[NIL]@@[PB]@', 'third': '@[NIL]@@[NIL]@@[PB]@'}.get(pos)
+    if pos == 'nested-second':
+        pre.append('def string INNER = @[NIL]@@[PB]@')
+        body = '@[NIL]@@[INNER]@'
+    pre.append('def string STR = %s' % body)
+    psrc = '@[STR]@/leaf' if usage == 'lead' else '-rel-tmp @[STR]@/leaf'
+    text, kind = _dest_case(role, psrc, pre=pre)
+    snap = _home_snapshot(w)
+    o, sds, ident = _run_keep(text)
+    errs = []
+    if ident != 'VALIDATION_ERROR' or o.rc != 65:
+        errs.append('%s at %s where STR is a string built from the PATH symbol PB (%s, position %s): every symbol of a path component must be a string: expected VALIDATION_ERROR, got %s' % (
+            role, psrc, base or 'default relativity', pos, ident))
+    if seam.calls or sds:
+        errs.append('the case was executed')
+    if _home_snapshot(w) != snap:
+        errs.append('home directory changed: %s' % sorted(set(_home_snapshot(w)) ^ set(snap))[:4])
+    res.outcomes[('Dstr', ident)] += 1
+    res.nontrivial += 1
+    if errs:
+        res.violation(case, errs, {'file': text})
     return res
 
 
